@@ -113,10 +113,12 @@ PROPS["C01"]["fields"] = r"^(diff|accum|cinit|applycc)\.|^cons\.(cc|pendch|cend|
 PROPS["C01"]["rule"] += "; " + CONS_RULE
 
 REWARDS = dict(name="rewards", quick=(6, 500), thorough=(28, 3000))
-PROPS["C16"] = dict(streams=[REWARDS], rule=PROV_RULE + "; rewards stream: ICS-20 reward transfers through the real provider transfer middleware (memo with consumer id, legacy identification through the channel's client, plain memo, other receivers, failing transfers; amounts 1..10^6 in three denoms), denom registration by governance and per-consumer allow-lists, community tax 0..1, per-consumer commission rates, opt-ins/outs and power changes between crediting and payout, NumberOfEpochsToStartReceivingRewards=2 so that joiners are not yet eligible, several consumers sharing denoms, stops and deletions",
+CREWARDS = dict(name="crewards", quick=(6, 600), thorough=(28, 4000))
+PROPS["C16"] = dict(streams=[REWARDS, CREWARDS], rule=PROV_RULE + "; crewards stream (consumer): fees of 1..10^6 in three denoms minted into the fee collector, redistribution fractions 0, 0.1, 1/3, 0.75, 0.999999999999999999 and 1, transmission periods 1..10, reward-denom lists (empty, one, two, duplicated), transfer channel opened / closed / removed, failing transfers (first or second of a block), refunds of timed-out transfers back into the send buffer; rewards stream (provider): ICS-20 reward transfers through the real provider transfer middleware (memo with consumer id, legacy identification through the channel's client, plain memo, other receivers, failing transfers; amounts 1..10^6 in three denoms), denom registration by governance and per-consumer allow-lists, community tax 0..1, per-consumer commission rates, opt-ins/outs and power changes between crediting and payout, NumberOfEpochsToStartReceivingRewards=2 so that joiners are not yet eligible, several consumers sharing denoms, stops and deletions",
     assumptions=PROV_ASSUME + ["bank, distribution and the ICS-20 application are scripted: balances are kept per module account, AllocateTokensToValidator records (validator, DecCoins, commission rate) and FundCommunityPool moves coins; the ICS-20 application mints the received coins for the receiver",
-                               "the Cosmos-Hub-only 'stride-1 / channel-391' patch of the middleware is not exercised (chain id is not cosmoshub-4)"],
-    fields=r"^begin\.(pool|distr|cp|reward-effects)|^c\d+\.alloc|^reward\.")
+                               "the Cosmos-Hub-only 'stride-1 / channel-391' patch of the middleware is not exercised (chain id is not cosmoshub-4)",
+                               "consumer: the ICS-20 keeper is scripted (escrows the tokens, can be made to fail); refunds of failed transfers are ibc-go's and are scripted as escrow -> send buffer; provider-originated (ibc/...) reward denoms and the democracy distribution wrapper (x/ccv/democracy/distribution) are not exercised"],
+    fields=r"^begin\.(pool|distr|cp|reward-effects)|^c\d+\.alloc|^reward\.|^cons\.(fc|redis|tosend|escrow|ltbh|transfers)")
 
 NOT_APPLICABLE = {
     "C07": "not claimed in this round: the harness does not yet construct real signed duplicate-vote evidence / conflicting headers; the technique applies (decision logic + frame), slice not built (DESIGN.md §10)",
